@@ -2,7 +2,7 @@
    Model/CandleView.v (hand-written: generate_candle_from_one_minutes, get_candles, get_current_candle, the partial-candle
    publication and the window arithmetic of the simulators) over Model/CandleStore.v; timeframe tables GENERATED. *)
 From Coq Require Import ZArith QArith Qcanon List Bool Arith Sorted.
-From JV Require Import Base.Num Gen.timeframes Model.CandleStore Model.CandleView Proofs.StoreProofs Proofs.ViewProofs Proofs.TimeframeProofs.
+From JV Require Import Base.Num Gen.timeframes Model.CandleStore Model.CandleView Proofs.StoreProofs Proofs.ViewProofs Proofs.TimeframeProofs Proofs.FeedProofs.
 Import ListNotations.
 Local Open Scope nat_scope.
 
@@ -14,6 +14,32 @@ Theorem C07_get_candles_is_aggregation :
   forall n, 0 < n -> forall short long, VInv n short long -> inc k_ts short ->
   exists r, get_candles n short long = Some r /\ map Some r = aggs n short.
 Proof. exact get_candles_is_aggregation. Qed.
+
+(* THE NORMAL SIMULATOR MAINTAINS THAT INVARIANT.  For every timeframe length n, every series of 1m candles whose timestamps are
+   consecutive minutes starting at a time aligned to the timeframe, every number m of simulated minutes, and ANY partial candles
+   published at the fills of each minute (whatever orders filled when): feeding the stores minute by minute (1m candle, partial
+   candles, the real candle again, completion of the window) leaves the 1m store equal to the first m candles and the timeframe
+   store in the invariant; hence at every minute a strategy reads exactly one candle per started window, each the aggregation of
+   the stored 1m candles of its window. *)
+Theorem C07_step_minute_keeps_invariant :
+  forall n, 0 < n -> forall t0, (0 < t0)%Z -> (Z.of_nat n * 60000 | t0)%Z ->
+  forall cs : list kc, (forall i, i < length cs -> k_ts (nth i cs dflt) = (t0 + Z.of_nat i * 60000)%Z) ->
+  forall (m : nat) (parts long : list kc), m < length cs -> (forall p, In p parts -> k_ts p = tsi t0 m) ->
+  VInv n (firstn m cs) long ->
+  exists long', step_minute n cs m parts (firstn m cs, long) = (firstn (S m) cs, long') /\ VInv n (firstn (S m) cs) long'.
+Proof. exact step_minute_keeps_invariant. Qed.
+
+Theorem C07_normal_simulator_views_are_aggregations :
+  forall n, 0 < n -> forall t0, (0 < t0)%Z -> (Z.of_nat n * 60000 | t0)%Z ->
+  forall cs : list kc, (forall i, i < length cs -> k_ts (nth i cs dflt) = (t0 + Z.of_nat i * 60000)%Z) ->
+  forall (parts : nat -> list kc) (m : nat), m <= length cs -> (forall i p, In p (parts i) -> k_ts p = tsi t0 i) ->
+  exists long r, feed n cs parts m = (firstn m cs, long) /\ get_candles n (firstn m cs) long = Some r /\ map Some r = aggs n (firstn m cs).
+Proof. exact feed_view_is_aggregation. Qed.
+
+(* the list form that the correspondence harness runs against the real stores is that same fold *)
+Theorem C07_feed_list_is_feed :
+  forall n, 0 < n -> forall cs (parts : list (list kc)), feed_list n cs parts = feed n cs (fun i => nth i parts []) (length parts).
+Proof. exact feed_list_is_feed. Qed.
 
 (* the aggregation itself: window-start timestamp, first open, last close, maximum high, minimum low, summed volume *)
 Theorem C07_agg_spec :
@@ -29,5 +55,8 @@ Theorem C07_timeframe_tables_agree :
 Proof. exact tables_agree. Qed.
 
 Print Assumptions C07_get_candles_is_aggregation.
+Print Assumptions C07_step_minute_keeps_invariant.
+Print Assumptions C07_normal_simulator_views_are_aggregations.
+Print Assumptions C07_feed_list_is_feed.
 Print Assumptions C07_agg_spec.
 Print Assumptions C07_timeframe_tables_agree.
